@@ -1,8 +1,10 @@
 (* C05 — serial, SSE and AVX2 builds compute bit-identical results.  Statements only.
-   What is proved: the vector kernels/loops that are modelled are equal, as functions on word lists, to the scalar ones;
-   the remaining kernels are tied by the cross-build correspondence (see DESIGN.md). *)
+   What is proved: every value-changing step of the SSE/AVX2 kernels (addmod, submod, mulmod_shoup u32/u16, muladd_shoup u16,
+   the vector Harvey butterfly), modelled per lane with its machine widths, signed-compare trick and pack saturation, equals
+   the scalar functor; layers and expression assignment do not depend on the lane grouping.  Lane-preserving data movement
+   (shuffle/blend/widen/pack order) is tied by the cross-build correspondence (see DESIGN.md). *)
 From Coq Require Import ZArith List Arith.
-From NTT Require Import Functors Simd Layer Expr ExprExec.
+From NTT Require Import Functors ScalarOps Simd SimdKernels Layer Expr ExprExec.
 Local Open Scope Z_scope.
 
 (* addmod<uint32_t/uint16_t, sse/avx2>: the signed-compare trick = the scalar functor in every lane, any lane count *)
@@ -27,3 +29,31 @@ Theorem C05_assign_width_irrelevant : forall w p pn dst t L1 m1 L2 m2 (h0 : heap
   assign (fop w p pn) (mulmod_shoup w p) (fcsh w p) dst (tr t) L1 m1 h0 dst i = assign (fop w p pn) (mulmod_shoup w p) (fcsh w p) dst (tr t) L2 m2 h0 dst i.
 Proof. exact assign_width. Qed.
 Print Assumptions C05_assign_width_irrelevant.
+
+(* submod<T, sse/avx2> = addmod(x, set1(p) - y): exact in every lane *)
+Theorem C05_submod_lane : forall w p x y, 1 < w -> 0 < p -> 2 * p <= 2 ^ w -> 0 <= x < p -> 0 <= y < p -> lane_sub w p x y = (x - y) mod p.
+Proof. exact lane_sub_exact. Qed.
+Print Assumptions C05_submod_lane.
+
+(* mulmod_shoup<uint32_t, sse>: 64-bit product lanes, 64-bit compare trick, low half kept *)
+Theorem C05_mulmod_shoup32_lane : forall p x y, Hrow 32 p -> 0 <= x < p -> 0 <= y < p -> lane_mulshoup32 p x y ((y * 2 ^ 32) / p) = (x * y) mod p.
+Proof. exact lane_mulshoup32_exact. Qed.
+Print Assumptions C05_mulmod_shoup32_lane.
+
+(* mulmod_shoup<uint16_t, sse/avx2>: widened 32-bit lanes, packus saturation never triggers *)
+Theorem C05_mulmod_shoup16_lane : forall p x y, Hrow 16 p -> 0 <= x < p -> 0 <= y < p -> lane_mulshoup16 p x y ((y * 2 ^ 16) / p) = (x * y) mod p.
+Proof. exact lane_mulshoup16_exact. Qed.
+Print Assumptions C05_mulmod_shoup16_lane.
+
+(* muladd_shoup<uint16_t, sse/avx2> = the scalar (lazy) functor, word for word *)
+Theorem C05_muladd_shoup16_lane : forall p rop x y, Hrow 16 p -> 0 <= rop < p -> 0 <= x < p -> 0 <= y < p ->
+  let r := lane_muladdshoup16 p rop x y ((y * 2 ^ 16) / p) in
+  r = muladd_shoup 16 p rop x y ((y * 2 ^ 16) / p) /\ 0 <= r < 2 * p /\ r mod p = (x * y + rop) mod p.
+Proof. exact lane_muladdshoup16_lazy. Qed.
+Print Assumptions C05_muladd_shoup16_lane.
+
+(* ntt_loop_body<sse/avx2, u16/u32>: the vector butterfly is the scalar lazy butterfly for ALL lane contents *)
+Theorem C05_butterfly_lane : forall w p wt wt' a b, 1 < w -> 0 < p -> 4 * p <= 2 ^ w -> 0 <= a < 2 ^ w -> 0 <= b < 2 ^ w ->
+  lane_bfly w p wt wt' a b = bfly_lazy w p wt wt' a b.
+Proof. exact lane_bfly_scalar. Qed.
+Print Assumptions C05_butterfly_lane.
